@@ -662,6 +662,17 @@ func (x *fx) evalCall(e *Expr, env *specEnv) *Val {
 		case "isnan":
 			v := x.eval(args[0], env)
 			return &Val{T: tBool, S: "(fp.isNaN " + v.S + ")"}
+		case "as":
+			// as(v, "*T"): the dynamic value of interface v read as a T (meaningful
+			// under typeis(v, "*T"), like the value of a checked type assertion)
+			v := x.eval(args[0], env)
+			tn := args[1].String()
+			if args[1].Op == "str" {
+				tn = strings.Trim(args[1].Name, "\"")
+			}
+			t := x.parseTypeString(tn, env.pkg)
+			_, unbox := x.boxFuns(x.sortOf(t))
+			return &Val{T: t, S: fmt.Sprintf("(%s (i-val %s))", unbox, v.S)}
 		case "typeis":
 			v := x.eval(args[0], env)
 			tn := args[1].String()
